@@ -1195,7 +1195,9 @@ class Engine:
             if v.ty == TBytes:
                 return IterDesc(z3.Length(v.t), lambda k: SV(z3.BV2Int(v.t[z3_int(k)]), TInt))
             if isinstance(v.ty, TList):
-                return IterDesc(z3.Length(v.t), lambda k: self.unbox(SV(v.t[z3_int(k)], v.ty.elem)))
+                dd = IterDesc(z3.Length(v.t), lambda k: self.unbox(SV(v.t[z3_int(k)], v.ty.elem)))
+                dd.seq = v      # loop invariants may name the iterated list as `_items`
+                return dd
             if isinstance(v.ty, TDict):
                 from . import speclib
                 ks = self.dkeys(v)
@@ -1322,6 +1324,8 @@ class Engine:
                 e["n_iter"] = SV(nt, TInt)
             if isinstance(itv, RangeV) and isinstance(s.target, ast.Name):
                 e[s.target.id] = d.get(itval)
+            if getattr(d, "seq", None) is not None:
+                e["_items"] = d.seq
             return e
         self.check_invs("inv_init[%d]" % k, spec, fr, head_env(0), s.lineno)
         self.havoc_loop(s.body, fr, spec, extra_names=())
